@@ -238,7 +238,7 @@ def run(res, tier, seed):
             sig = "C18:without-signals:%s" % m["phase"]
         res.violation(sig, pr[0][1], {"scenario_meta": m, "problems": pr, "result": P.summarize(r), "model_counterexamples": cex})
         found = True
-    if not found and (not proofs_ok or not tie_ok):
+    if not found and not res.violations and (not proofs_ok or not tie_ok):
         res.violation("C18:obligation", "proof obligation or tie no longer checks (%s); model search: %s; the Spec held on all %d real runs" %
                       (broken, "; ".join(k for k, v in cex.items() if v) or "no violating skeleton state", len(metas)),
                       {"broken": broken, "model_counterexamples": cex, "searched": "%d child processes" % len(metas)}, found_input=False)
